@@ -431,11 +431,14 @@ func (r *runner) run1(ev *evidence) int {
 
 	if spec.Custom != nil {
 		cov["traces_validated_against_impl"] = validated
-		if diffErr != nil {
+		c := spec.Custom(r, ev, pool)
+		if diffErr != nil && c != 1 {
+			// a failed translator validation cannot end in "held"; a violation the custom step
+			// demonstrated and confirmed natively is still reported
 			cov["explanation"] = "differential failed: " + diffErr.Error()
 			return 2
 		}
-		return spec.Custom(r, ev, pool)
+		return c
 	}
 	budget := spec.QuickBudget
 	if r.tier == "thorough" {
